@@ -1,6 +1,8 @@
 """C01 - Connected instances converge on one running Master (per-instance election rule and its guards)."""
 from pyvc.spec import *
 
+from contracts.c07 import valid_structure, distinct_entries
+
 STABLE = (SupvisorsInstanceStates.RUNNING, SupvisorsInstanceStates.STOPPED, SupvisorsInstanceStates.ISOLATED)
 
 
@@ -29,3 +31,67 @@ class GetStableRunningIdentifiers:
 
     def loop0_modifies(self, stable_identifiers):
         return [contents(stable_identifiers)]
+
+
+@contract('statemodes:SupvisorsStateModes.publish_status', props=['C01'])
+class PublishStatus:
+    """publication of the local state and modes to the peers and to the listeners: changes nothing locally"""
+    raises = ()
+    effect = 'publish_status'
+
+    def modifies(self):
+        return []
+
+    def pre_local_known(self):
+        return self.supvisors.mapper.local_identifier in self.instance_state_modes
+
+
+def local_sm(sms):
+    """the StateModes of the local instance inside a SupvisorsStateModes"""
+    return sms.instance_state_modes[sms.supvisors.mapper.local_identifier]
+
+
+@contract('statemodes:SupvisorsStateModes.update_instance_state', props=['C01', 'C07'])
+class UpdateInstanceState:
+    """statement (C01 mechanism 'Master reset when it leaves RUNNING'): 'A running Master ... is kept'; a Master that is
+    no longer seen RUNNING is forgotten so that a new election takes place.  Whole view: the local view of the other
+    instances is untouched; a STOPPED / ISOLATED peer gets a fresh StateModes (its stale Master declaration is
+    forgotten)."""
+    raises = ()
+
+    def modifies(self, identifier):
+        local = local_sm(self)
+        return [contents(local.instance_states), field(local, 'master_identifier'), field(self, 'update_mark'),
+                contents(self.instance_state_modes)]
+
+    def pre_valid(self, identifier):
+        return (self.supvisors.state_modes is self and valid_structure(self.supvisors)
+                and distinct_entries(self.supvisors) and identifier in self.instance_state_modes)
+
+    def post_local_view(self, identifier, new_state, old):
+        local = local_sm(self)
+        old_local = local_sm(old.self)
+        return forall(str, lambda i: (i in local.instance_states) == (i in old_local.instance_states)
+                      and implies(i in local.instance_states,
+                                  local.instance_states[i] == ite(i == identifier, new_state,
+                                                                  old_local.instance_states[i])))
+
+    def post_master_reset(self, identifier, new_state, old):
+        local = local_sm(self)
+        old_master = local_sm(old.self).master_identifier
+        return local.master_identifier == ite(
+            new_state != SupvisorsInstanceStates.RUNNING and identifier == old_master, '', old_master)
+
+    def post_still_valid(self):
+        return valid_structure(self.supvisors) and distinct_entries(self.supvisors)
+
+    def post_stale_declaration_forgotten(self, identifier, new_state, old):
+        reset = (new_state in (SupvisorsInstanceStates.STOPPED, SupvisorsInstanceStates.ISOLATED)
+                 and identifier != self.supvisors.mapper.local_identifier)
+        sm = self.instance_state_modes[identifier]
+        return (forall(str, lambda i: (i in self.instance_state_modes) == (i in old.self.instance_state_modes)
+                       and implies(i in self.instance_state_modes and not (reset and i == identifier),
+                                   self.instance_state_modes[i] is old.self.instance_state_modes[i]))
+                and implies(reset, was_fresh(sm) and sm.master_identifier == '' and sm.state == SupvisorsStates.OFF
+                            and sm.supvisors_id is old.self.instance_state_modes[identifier].supvisors_id
+                            and forall(str, lambda i: i not in sm.instance_states)))
